@@ -1,11 +1,18 @@
 use std::any::type_name;
 use std::fmt;
+#[cfg(folo_verif)]
+use std::sync::atomic;
+#[cfg(not(folo_verif))]
 use std::sync::atomic::{self, AtomicU64};
 use std::sync::{Arc, OnceLock};
 
+#[cfg(not(folo_verif))]
 use arc_swap::{ArcSwap, ArcSwapOption};
 use many_cpus::{MemoryRegionId, SystemHardware};
 use rsevents::{Awaitable, EventState, ManualResetEvent};
+
+#[cfg(folo_verif)]
+use crate::__verif::sync::{ArcSwap, ArcSwapOption, AtomicU64};
 
 /// Provides access to an instance of `T` that is locally cached in the current memory region.
 ///
